@@ -321,6 +321,14 @@ func Eq(a, b *Term) *Term {
 			return Eq(Const(inner.W, a.Val), inner)
 		}
 	}
+	// x*K == y*K (mod 2^w) with K = odd*2^s  <=>  x == y (mod 2^(w-s))
+	if a.Op == OpMul && b.Op == OpMul && a.Args[1].IsConst() && b.Args[1].IsConst() && a.Args[1].Val == b.Args[1].Val && a.Args[1].Val != 0 {
+		k := a.Args[1].Val
+		sft := bits.TrailingZeros64(k)
+		if sft < a.W {
+			return Eq(Extract(a.Args[0], a.W-1-sft, 0), Extract(b.Args[0], a.W-1-sft, 0))
+		}
+	}
 	// eq(const, ite(c, k1, k2)) with const branches
 	if a.IsConst() && b.Op == OpIte && b.Args[1].IsConst() && b.Args[2].IsConst() {
 		e1 := a.Val == b.Args[1].Val
@@ -555,6 +563,9 @@ func BinBV(op Op, a, b *Term) *Term {
 		if sameTerm(a, b) {
 			return a
 		}
+		if r := orDisjoint(a, b); r != nil {
+			return r
+		}
 	case OpBXor:
 		if a.IsConst() {
 			a, b = b, a
@@ -590,7 +601,133 @@ func BinBV(op Op, a, b *Term) *Term {
 			return a
 		}
 	}
+	// unsigned division/remainder of a zero-extended value by a constant that
+	// fits the narrow width: do it at the narrow width (much cheaper to bit-blast)
+	if (op == OpUDiv || op == OpURem) && a.Op == OpZExt && b.IsConst() && b.Val != 0 {
+		x := a.Args[0]
+		nw := x.W
+		if nw < 8 {
+			nw = 8
+		}
+		if nw < w && b.Val <= mask(nw) {
+			return ZExt(BinBV(op, ZExt(x, nw), Const(nw, b.Val)), w)
+		}
+	}
+	if (op == OpSDiv || op == OpSRem) && a.Op == OpZExt && b.IsConst() && b.Val != 0 && signExt(b.Val, w) > 0 {
+		// non-negative dividend, positive divisor: same as unsigned
+		uop := OpUDiv
+		if op == OpSRem {
+			uop = OpURem
+		}
+		return BinBV(uop, a, b)
+	}
 	return intern(op, w, 0, 0, "", a, b)
+}
+
+// ---- segment normalisation: OR of values with disjoint non-zero bit ranges ----
+
+type seg struct {
+	w int
+	t *Term // nil: all-zero bits
+}
+
+func segments(t *Term, out []seg) []seg {
+	switch t.Op {
+	case OpConst:
+		if t.Val == 0 {
+			return append(out, seg{t.W, nil})
+		}
+	case OpWide:
+		if t.Big.Sign() == 0 {
+			return append(out, seg{t.W, nil})
+		}
+	case OpZExt:
+		out = append(out, seg{t.W - t.Args[0].W, nil})
+		return segments(t.Args[0], out)
+	case OpConcat:
+		out = segments(t.Args[0], out)
+		return segments(t.Args[1], out)
+	}
+	return append(out, seg{t.W, t})
+}
+
+// orDisjoint returns a|b as a concatenation when no bit position is possibly
+// non-zero in both operands (by structure), else nil.
+func orDisjoint(a, b *Term) *Term {
+	sa := segments(a, nil)
+	sb := segments(b, nil)
+	if len(sa) == 1 && sa[0].t != nil || len(sb) == 1 && sb[0].t != nil {
+		return nil
+	}
+	var pieces []seg
+	i, j := 0, 0
+	// remaining parts of the current segments
+	var ra, rb seg
+	if len(sa) > 0 {
+		ra = sa[0]
+	}
+	if len(sb) > 0 {
+		rb = sb[0]
+	}
+	for i < len(sa) && j < len(sb) {
+		n := ra.w
+		if rb.w < n {
+			n = rb.w
+		}
+		if ra.t != nil && rb.t != nil {
+			return nil
+		}
+		var piece seg
+		piece.w = n
+		src := ra
+		if ra.t == nil {
+			src = rb
+		}
+		if src.t != nil {
+			// take the top n bits of src
+			piece.t = Extract(src.t, src.w-1, src.w-n)
+		}
+		pieces = append(pieces, piece)
+		// consume n bits from both
+		if ra.t != nil && ra.w > n {
+			ra = seg{ra.w - n, Extract(ra.t, ra.w-n-1, 0)}
+		} else {
+			ra.w -= n
+		}
+		if rb.t != nil && rb.w > n {
+			rb = seg{rb.w - n, Extract(rb.t, rb.w-n-1, 0)}
+		} else {
+			rb.w -= n
+		}
+		if ra.w == 0 {
+			i++
+			if i < len(sa) {
+				ra = sa[i]
+			}
+		}
+		if rb.w == 0 {
+			j++
+			if j < len(sb) {
+				rb = sb[j]
+			}
+		}
+	}
+	// rebuild
+	var r *Term
+	for _, p := range pieces {
+		var t *Term
+		if p.t == nil {
+			t = mkZero(p.w)
+		} else {
+			t = p.t
+		}
+		if r == nil {
+			r = t
+		} else {
+			r = Concat(r, t)
+		}
+	}
+	return r
 }
 
 func BNot(a *Term) *Term {
@@ -626,6 +763,18 @@ func Concat(hi, lo *Term) *Term {
 	}
 	if hi.IsConst() && hi.Val == 0 {
 		return ZExt(lo, w)
+	}
+	if hi.Op == OpWide && hi.Big.Sign() == 0 {
+		return ZExt(lo, w)
+	}
+	if hi.Op == OpZExt {
+		return ZExt(Concat(hi.Args[0], lo), w)
+	}
+	// concat(concat(a, extract(x,h,m+1)), extract(x,m,l)): merge at the seam
+	if hi.Op == OpConcat && lo.Op == OpExtract {
+		if in := hi.Args[1]; in.Op == OpExtract && in.Args[0] == lo.Args[0] && in.B == lo.A+1 {
+			return Concat(hi.Args[0], Extract(lo.Args[0], in.A, lo.B))
+		}
 	}
 	return intern(OpConcat, w, 0, 0, "", hi, lo)
 }
